@@ -12,6 +12,7 @@ import (
 	"net/http/httptest"
 	"os"
 	"runtime"
+	"sort"
 	"strings"
 	"sync"
 	"sync/atomic"
@@ -67,6 +68,77 @@ func c12Reuse() []map[string]interface{} {
 			ans := text(body)
 			out = append(out, map[string]interface{}{"kind": kind, "registered": v, "served_by_it": strings.Contains(ans, "H-"+v), "answer": fmt.Sprintf("%.200s", ans)})
 		}
+	}
+	return out
+}
+
+// c12SameNew: several goroutines register the same, not yet registered entry at the same moment, again and again with fresh names:
+// whatever the order, the entry is listed once.
+func c12SameNew(rounds, workers int) []map[string]interface{} {
+	srv := mcp.NewServer("verif", "1.0", mcp.WithServerPath("/mcp"), mcp.WithServerLogger(silentLogger{}), mcp.WithStatelessMode(true), mcp.WithPostSSEEnabled(false))
+	ts := httptest.NewServer(srv.Handler())
+	defer func() { closeClientConns(ts); closeTS(ts) }()
+	for r := 0; r < rounds; r++ {
+		name := fmt.Sprintf("same%d", r)
+		start := make(chan struct{})
+		var wg sync.WaitGroup
+		for g := 0; g < workers; g++ {
+			wg.Add(1)
+			go func(g int) {
+				defer wg.Done()
+				<-start
+				switch g % 3 {
+				case 0:
+					srv.RegisterResource(&mcp.Resource{URI: "r://" + name, Name: name}, func(ctx context.Context, req *mcp.ReadResourceRequest) (mcp.ResourceContents, error) {
+						return mcp.TextResourceContents{URI: "r://" + name, Text: "x"}, nil
+					})
+				case 1:
+					srv.RegisterTool(mcp.NewTool(name), func(ctx context.Context, req *mcp.CallToolRequest) (*mcp.CallToolResult, error) {
+						return mcp.NewTextResult("x"), nil
+					})
+				default:
+					srv.RegisterPrompt(&mcp.Prompt{Name: name}, func(ctx context.Context, req *mcp.GetPromptRequest) (*mcp.GetPromptResult, error) {
+						return &mcp.GetPromptResult{Messages: []mcp.PromptMessage{}}, nil
+					})
+				}
+			}(g)
+		}
+		close(start)
+		waitOrDeadlock(wg.Wait, 30*time.Second, "simultaneous registrations of one entry")
+	}
+	out := []map[string]interface{}{}
+	for kind, method := range map[string]string{"tools": "tools/list", "prompts": "prompts/list", "resources": "resources/list"} {
+		r := peer.PostJSON(context.Background(), ts.URL+"/mcp", nil, []byte(fmt.Sprintf(`{"jsonrpc":"2.0","id":1,"method":"%s"}`, method)), false)
+		var m struct {
+			Result map[string][]struct {
+				Name string `json:"name"`
+				URI  string `json:"uri"`
+			} `json:"result"`
+		}
+		json.Unmarshal(r.Body, &m)
+		count := map[string]int{}
+		total := 0
+		for _, l := range m.Result {
+			for _, e := range l {
+				k := e.Name
+				if e.URI != "" {
+					k = e.URI
+				}
+				count[k]++
+				total++
+			}
+		}
+		dup := []string{}
+		for k, c := range count {
+			if c > 1 {
+				dup = append(dup, fmt.Sprintf("%s x%d", k, c))
+			}
+		}
+		sort.Strings(dup)
+		if len(dup) > 5 {
+			dup = dup[:5]
+		}
+		out = append(out, map[string]interface{}{"kind": kind, "listed": total, "distinct": len(count), "expected": rounds, "duplicates": dup})
 	}
 	return out
 }
@@ -419,10 +491,12 @@ func init() {
 			Results []c12Result              `json:"results"`
 			Notif   []c12NotifOut            `json:"notif,omitempty"`
 			Reuse   []map[string]interface{} `json:"reuse,omitempty"`
+			SameNew []map[string]interface{} `json:"same_new,omitempty"`
 		}{}
 		if in.Notif {
 			out.Notif = append(out.Notif, c12Notif("streamable"))
 			out.Reuse = c12Reuse()
+			out.SameNew = c12SameNew(1500, 9)
 		}
 		for i, sc := range in.Scheds {
 			out.Results = append(out.Results, c12RunSched(fmt.Sprintf("g%s%d", sc.Kind[:1], i), sc.Kind, 1, 0, 0, 0, sc.Steps))
